@@ -79,6 +79,13 @@ class Contract:
     def result(self, c, a):
         return NotImplemented
 
+    def may_raise_at(self, c, a):
+        """exception classes the callee may raise for reasons outside the program (environment faults)"""
+        return self.may_raise
+
+    def on_env_raise(self, c, a, cls):
+        pass
+
     def effects(self, c, a, result):
         """ghost effects of a call when the contract is used modularly (read/write log entries)"""
         pass
@@ -140,7 +147,7 @@ class Contract:
                         ob = ec.ensure(cond, f'{cls}.only_if', kind='raises')
                         _tag(ob, e)
                 if not matched:
-                    if any(V.exc_isinstance(e.cls, m) for m in self.may_raise):
+                    if any(V.exc_isinstance(e.cls, m) for m in self.may_raise_at(ctx, a)):
                         pass
                     else:
                         ob = ec.ensure(False, f'unexpected.{e.cls}', kind='raises')
@@ -150,7 +157,14 @@ class Contract:
             ex.note_outcome('return')
             for cls, cond in rz.items():
                 ec.ensure(Not(cond), f'{cls}.if', kind='raises')
-            self.post(ec, a, result)
+            try:
+                self.post(ec, a, result)
+            except (Unsupported, PyRaise):
+                raise
+            except (IndexError, KeyError, AttributeError, TypeError, ValueError) as e:
+                # the postcondition could not even be evaluated on this path (e.g. it refers to a log entry that is not
+                # there): the obligations emitted so far stand, the rest is undecided -- never a silent pass
+                ex.undecided.append(f'postcondition not evaluable on path {"".join(str(int(x)) if isinstance(x, bool) else str(x) for x in ctx.trail)}: {type(e).__name__}: {e}')
         ex.run(path)
         return ex, finfo
 
@@ -164,10 +178,12 @@ class Contract:
         for cls, cond in self.raises(c, a).items():
             if c.decide(zbool(cond), raise_split=True):
                 raise PyRaise(cls)
-        if self.may_raise:
-            k = c.choose(1 + len(self.may_raise), 'callee may raise')
+        mr = self.may_raise_at(c, a)
+        if mr:
+            k = c.choose(1 + len(mr), 'callee may raise')
             if k > 0:
-                raise PyRaise(self.may_raise[k - 1])
+                self.on_env_raise(c, a, mr[k - 1])
+                raise PyRaise(mr[k - 1])
         r = self.fresh_result(c, a)
         c.ghost.setdefault('calls', []).append((finfo.key, a, r))       # ghost: modular calls made (for caller-side contracts)
         if not getattr(self, 'exact_result', False):
